@@ -29,6 +29,9 @@ ones of the fixed prelude of Gen/KeysGen.v (tools/translate_keys.py), imported, 
     v = KnownStackValue(op@pos, args) (the `key` argument must be the method's own `key`: the parameters are the
     operations of that key).  `self._get_asserted` is the translated function itself: the translator checks that no
     class of transaction_context/ overrides it.
+    A function that uses one member of a group of same-typed parameters (univ / null, union / inter) takes the
+    whole group (a dead `let`, tcommon.pin_twins), so that writing one for the other cannot become a mere renaming of
+    a parameter of the discharged function.
   * a class object passed as `node_ins` is a value of the generated type `nodeclass` (one constructor per class
     that is passed: And, Or); isinstance(i, node_ins) is isinstance_node.  isinstance(i, (A, B)) with literal class
     names is a constructor match through CLASS_PATTERNS; the translator checks that these classes have no
@@ -42,7 +45,7 @@ import ast
 import os
 import sys
 
-from tcommon import TranslateError, fail, parse, strip_doc, T
+from tcommon import TranslateError, fail, parse, strip_doc, pin_twins, T
 from translate_keys import check_imports, check_no_subclasses, indent
 
 SB_REL = "analyses/utils/stack_ast_builder.py"
@@ -773,7 +776,8 @@ def emit_asserted(outdir):
     signature(gp, f, [("self", None), ("key", "str"), ("ins_stack_value", "KnownStackValue")])
     env = Env(gp, {"ins_stack_value": VAL}, "asserted", bound_names(gtree))
     w(f"  (* {GEN_REL}: DataflowTransactionContext._get_asserted (line {f.lineno}) *)")
-    w(indent(fixpoint("get_asserted_gen", "(ins_stack_value : sval)", "py (T * T)", block(env, f.body, None)), 2))
+    # a definition that uses one of univ / null (union / inter) takes both: see tcommon.pin_twins
+    w(indent(fixpoint("get_asserted_gen", "(ins_stack_value : sval)", "py (T * T)", pin_twins(block(env, f.body, None))), 2))
     w("End AssertedGen.")
     os.makedirs(outdir, exist_ok=True)
     with open(os.path.join(outdir, "AssertedGen.v"), "w") as fh:
